@@ -554,3 +554,135 @@ def run_group(case: dict) -> Result:
     res.nontrivial = mon["rebalances"] >= 2 and joins >= 1 and leaves >= 1
     res.seen("strategies", strat_name)
     return res
+
+
+# ==========================================================================
+# StreamProcessor: every record fed in is emitted in a window result or accounted as late
+
+
+def gen_stream(rng: random.Random, tier: str) -> dict:
+    wkind = rng.choice(["tumbling", "tumbling", "sliding", "session"])
+    size = rng.choice([0.05, 0.2, 1.0])
+    recs = []
+    t = 1
+    for i in range(rng.choice([1, 4, 12, 40])):
+        t += rng.choice([0, 1, 5, 30, 200, 700])
+        # event time = processing time minus a lag (sometimes large: late events)
+        lag = rng.choice([0, 0, 0, 2, 50, 400, 1500])
+        recs.append({"t": t, "key": rng.choice(["a", "b", "c"]), "val": i, "et_ms": max(0, t - lag)})
+    return {
+        "window": wkind,
+        "size": size,
+        "slide": rng.choice([size, size / 2, size / 4]),
+        "gap": rng.choice([0.03, 0.3]),
+        "lateness": rng.choice([0.0, 0.0, 0.1, 1.0]),
+        "policy": rng.choice(["drop", "side_output", "update"]),
+        "watermark_interval": rng.choice([0.05, 0.25, 1.0]),
+        "records": recs,
+    }
+
+
+class _Collector(Entity):
+    def __init__(self, name, log):
+        super().__init__(name)
+        self.log = log
+
+    def handle_event(self, event):
+        self.log.append((self.now.nanoseconds, event.event_type, dict(event.context)))
+        return None
+
+
+def run_stream(case: dict) -> Result:
+    from happysimulator.components.streaming import LateEventPolicy, SessionWindow, SlidingWindow, StreamProcessor, TumblingWindow
+
+    res = Result()
+    comp = "StreamProcessor"
+    wk = case["window"]
+    if wk == "tumbling":
+        win = TumblingWindow(float(case["size"]))
+        span = float(case["size"])
+    elif wk == "sliding":
+        win = SlidingWindow(float(case["size"]), float(case["slide"]))
+        span = float(case["size"])
+    else:
+        win = SessionWindow(float(case["gap"]))
+        span = float(case["gap"])
+    policy = {"drop": LateEventPolicy.DROP, "side_output": LateEventPolicy.SIDE_OUTPUT, "update": LateEventPolicy.UPDATE}[case["policy"]]
+    out_log, side_log = [], []
+    out = _Collector("out", out_log)
+    side = _Collector("side", side_log)
+    wi = float(case["watermark_interval"])
+    sp = StreamProcessor(
+        "sp",
+        window_type=win,
+        aggregate_fn=lambda recs: list(recs),
+        downstream=out,
+        allowed_lateness_s=float(case["lateness"]),
+        late_event_policy=policy,
+        side_output=side,
+        watermark_interval_s=wi,
+    )
+    recs = sorted(case["records"], key=lambda r: r["t"])
+    t_last = recs[-1]["t"] if recs else 1
+    n_sessions = len(recs) + 1
+    end_ms = t_last + int(1000 * (span * (n_sessions if wk == "session" else 1) + 4 * wi)) + 100
+    sim = Simulation(entities=[sp, out, side], end_time=Instant(end_ms * MS))
+    for r in recs:
+        sim.schedule(
+            Event(
+                time=Instant(r["t"] * MS),
+                event_type="Process",
+                target=sp,
+                context={"key": r["key"], "value": r["val"], "event_time_s": r["et_ms"] / 1000.0},
+            )
+        )
+    with EngineProbe(instant_cap=20000, total_cap=300000) as p:
+        status = p.run(sim)
+    if status != "completed":
+        res.inconclusive = f"run status {status}"
+        return res
+    res.count("events_monitored", p.n_deliveries)
+    shape = f"window={wk}/policy={case['policy']}"
+    in_results = {}
+    for t, typ, c in out_log:
+        if typ != "WindowResult":
+            continue
+        res.count("window_results")
+        if c.get("record_count") != len(c.get("result", [])):
+            res.add("record-count-differs-from-result", comp, shape, f"{c}")
+        for v in c["result"]:
+            in_results.setdefault(v, []).append((t, c["key"], c["window_start"], c["window_end"]))
+    side_vals = [c["value"] for _, typ, c in side_log if typ == "LateEvent"]
+    st = sp.stats
+    n = len(recs)
+    res.count("records_checked", n)
+    if st.events_processed != n:
+        res.add("processed-count", comp, shape, f"{st.events_processed} processed, {n} fed")
+    lost = []
+    for r in recs:
+        v = r["val"]
+        k = len(in_results.get(v, [])) + side_vals.count(v)
+        if k == 0:
+            lost.append(v)
+        if v in in_results and any(key != r["key"] for _, key, _, _ in in_results[v]):
+            res.add("record-emitted-under-other-key", comp, shape, f"value {v} key {r['key']}: {in_results[v]}")
+        if wk != "sliding" and case["policy"] != "update":
+            wins = {(a, b) for _, _, a, b in in_results.get(v, [])}
+            if len(in_results.get(v, [])) + side_vals.count(v) > 1:
+                res.add("record-emitted-twice", comp, shape, f"value {v}: results {in_results.get(v)}, side output {side_vals.count(v)}; windows {sorted(wins)}")
+    accounted_late = st.late_events_dropped + (st.late_events_side_output if case["policy"] == "side_output" else 0)
+    silently = len(lost) - (st.late_events_dropped if case["policy"] == "drop" else 0)
+    if case["policy"] == "side_output" and len(side_vals) != st.late_events_side_output:
+        res.add("late-event-not-sent-to-side-output", comp, shape, f"stats say {st.late_events_side_output}, side output received {len(side_vals)}")
+    if silently > 0 and sp.active_windows == 0:
+        res.add(
+            "record-in-no-window-result",
+            comp,
+            shape,
+            f"{len(lost)} of {n} records ({lost[:8]}) are in no window result and no side output; only {accounted_late} were counted late; no window is still open",
+        )
+    elif silently > 0:
+        res.inconclusive = f"{sp.active_windows} windows still open at end_time"
+    res.count("late_events", st.late_events)
+    res.nontrivial = n >= 2 and st.windows_emitted >= 1
+    return res
